@@ -141,17 +141,21 @@ func FormatNumber(value float64, picture string, format DecimalFormat) (string, 
 	}
 
 	exponent := 0
-	if vars.MinExponentSize != 0 {
+	if vars.MinExponentSize != 0 && value != 0 {
 
 		maxMantissa := math.Pow(10, float64(vars.ScalingFactor))
 		minMantissa := math.Pow(10, float64(vars.ScalingFactor-1))
 
-		for value < minMantissa {
+		// Scale the magnitude: the sign is carried by the
+		// prefix, and zero has no exponent to normalise
+		// (multiplying it by ten never reaches the minimum
+		// mantissa).
+		for math.Abs(value) < minMantissa {
 			value *= 10
 			exponent--
 		}
 
-		for value > maxMantissa {
+		for math.Abs(value) > maxMantissa {
 			value /= 10
 			exponent++
 		}
